@@ -160,6 +160,11 @@ def cases_chains(tier, seed):
     for depth in (10, 40, 60):
         for at in (1, depth // 2):
             yield dict(kind='chain', depth=depth, fail='unknown-function', at=at)
+    # the chain travels through function calls - lazy ones (IF, AND, OR, NOT evaluate the next cell INSIDE the function) and eager ones
+    for link in ('if', 'if-else', 'not', 'and', 'sum', 'range'):
+        for depth in (10, 20, 40):
+            for fail in ('unknown-function', 'python-error', 'cycle-at-end'):
+                yield dict(kind='chain', depth=depth, fail=fail, link=link)
 
 
 def _graph_job(g):
@@ -224,8 +229,10 @@ def oracle_chains(c):
     d = c['depth']
     at = c.get('at', d)
     cells = {}
+    link = {'plus': '=A{n}+1', 'if': '=IF(TRUE,A{n},0)', 'if-else': '=IF(1>2,0,A{n}+1)', 'not': '=NOT(A{n})', 'and': '=AND(TRUE,A{n})',
+            'sum': '=SUM(A{n},1)', 'range': '=SUM(A{n}:A{n})+1'}[c.get('link', 'plus')]
     for i in range(1, d + 1):
-        cells[f'A{i}'] = f'=A{i + 1}+1'
+        cells[f'A{i}'] = link.format(n=i + 1)
     leaf = {'unknown-function': '=NOSUCHFUNCTION(1)', 'python-error': '=VLOOKUP(1,1,1,TRUE)', 'cycle-at-end': f'=A{max(1, d)}+1'}[c['fail']]
     cells[f'A{at + 1}'] = leaf
     if at < d:
@@ -250,5 +257,5 @@ DRIVERS = [
            rule='every digraph on <= 3 cells and every digraph on 4 cells with <= 5 edges (self references, 2/3/4-cycles, every entry point, diamonds, repeated references), plus cycles closed through ranges / across sheets and an IF whose dead branch refers to itself; each evaluated in a child process with a 20 s / 3 GB limit',
            bound='<= 4 cells'),
     Driver('C06/B4.chains', cases_chains, oracle_chains, nchunks=8,
-           rule='dependency chains of depth 1..60 ending in an unknown function / a Python-level error / a cycle, and failures half-way: time and message size of the report', bound='depth <= 60'),
+           rule='dependency chains of depth 1..60 ending in an unknown function / a Python-level error / a cycle, failures half-way, and chains whose links go through IF / NOT / AND (lazy), SUM and one-cell ranges: time and message size of the report', bound='depth <= 60'),
 ]
